@@ -286,3 +286,23 @@ def close_lists(tol, xs, ys):
 
 
 TAU_SPEC = {"f64": Fr(1, 2 ** 40), "f32": Fr(1, 2 ** 14)}
+
+
+def float_opinion_kind(rng, fmt, n):
+    """float opinion with a random kind: interior, dogmatic (non-dyadic masses), vacuous, with or without a zero base-rate entry"""
+    kind = rng.choice(["int", "dog", "dog", "vac", "zero_a"])
+    if kind == "vac":
+        b, u = [0.0] * n, 1.0
+    else:
+        b, u = float_simplex(rng, fmt, n)
+        if kind == "dog":
+            xs = [rng.random() for _ in range(n)]
+            t = sum(xs)
+            b, u = [round_fmt(fmt, x / t) for x in xs], 0.0
+    a = float_dist(rng, fmt, n)
+    if kind == "zero_a" or rng.random() < 0.2:
+        i = rng.randrange(n)
+        a[i] = 0.0
+        t = sum(a)
+        a = [round_fmt(fmt, x / t) for x in a]
+    return b + [u] + a
